@@ -31,7 +31,7 @@ StepOk(W, m, e) ==
              avail == {cands[j] : j \in {j \in 1..Len(cands) : DepAvail(W, m, cands[j])}} IN
          IF avail = {} THEN e.out = 0 ELSE e.out \in avail
     [] e.in.k = "store" -> e.out = 0
-    [] OTHER -> TRUE
+    [] OTHER -> TRUE      \* tick; prepare (building the request of a referenced message): not a store, the monitor does not move
 
 MonStep(W, m, e) ==
   CASE e.in.k = "store" ->
